@@ -56,7 +56,9 @@ def mergeDelegates : Bool :=
 
 def isFalseSeesContradiction : Bool :=
   sqlparser_StaticPredicate_IsFalse ==
-    ["if:sp.contradiction{", "return", "}", "call:sp.comparable", "call:sp.comparable", "call:io.GenericComparison", "return"]
+    -- (with arguments: the bounds contradict only when min is STRICTLY above max, `io.GT`)
+    ["if:sp.contradiction{", "return", "}", "call:sp.comparable(sp.min)", "call:sp.comparable(sp.max)",
+     "call:io.GenericComparison(sp.comparable(sp.min), sp.comparable(sp.max), io.GT)", "return"]
 
 /-- push-down: literal through `convertUnitToNanosec`, then the one-nanosecond step for bounds that
     are NOT inclusive, then `time.Unix` → `SetStart` / `SetEnd` -/
